@@ -12,6 +12,22 @@ package main
 //     by the concatenation of the values (max_event_size: "truncated");
 //   - a stream time-out ends an open run as well (only possible when the
 //     feeder really left a gap of at least event_timeout).
+//
+// Match conditions on the action (match_fields / do_if): the pipeline README
+// says the action is executed for matching events only. Neither it nor the
+// property text says what an event that does not match means to a run that is
+// open. The code offers a busy action every following event of the stream,
+// whether it matches or not (processor.doActions), so such an event is
+// classified like any other: a continuation is appended, anything else ends
+// the run, a start line even opens a new one. The oracle demands what the
+// property text demands in either reading and accepts both:
+//   - while no run is open, an event that does not match passes unchanged and
+//     opens nothing;
+//   - an event that does not match and arrives while a run is open either is
+//     treated like a matching one (the code), or ends the run and passes
+//     unchanged (match conditions read strictly);
+//   - in no reading may it overtake the run that was open when it arrived, leave
+//     the run open behind it, get lost or come out twice.
 
 import (
 	"bytes"
@@ -69,6 +85,11 @@ func (m *joinModel) isCont(tpl int, v string) bool {
 // step advances the no-time-out model by one kept line (used by the generator
 // to find lines after which a run is open).
 func (m *joinModel) step(ln *Line) {
+	if ln.NoMatch && m.open == nil {
+		// the action is idle: an event that does not satisfy its match conditions skips it
+		return
+	}
+	// (while a run is open the action is offered every event of the stream)
 	if !ln.HasField {
 		m.open = nil
 		return
@@ -313,6 +334,13 @@ func checkJoinStream(cs *Case, so *streamObs, st *oracleStats) *Viol {
 		seen[e.view.ID]++
 	}
 	pos, a := 0, 0
+	// busyBefore: the previous output event was a run that ended exactly before
+	// lines[pos] and not by a time-out, i.e. lines[pos] arrived while the action
+	// was holding that run
+	busyBefore := false
+	// idleBefore: in the reading of the code the action may have been idle when
+	// lines[pos] arrived (evidence only: tells a time-out from the strict reading)
+	idleBefore := true
 	for pos < len(lines) {
 		ln := lines[pos]
 		if a >= len(outs) {
@@ -344,6 +372,12 @@ func checkJoinStream(cs *Case, so *streamObs, st *oracleStats) *Viol {
 		if ln.HasField {
 			isS, tpl = m.isStart(ln.Value)
 		}
+		if isS && ln.NoMatch && !busyBefore {
+			// the action was idle: an event that does not satisfy the match conditions
+			// is none of its business
+			isS = false
+			st.add("nomatch_start_passed_idle", 1)
+		}
 		if !isS {
 			// not joined: unchanged
 			if ev.view.HasField != ln.HasField || ev.view.Value != ln.Value {
@@ -362,6 +396,13 @@ func checkJoinStream(cs *Case, so *streamObs, st *oracleStats) *Viol {
 			default:
 				st.add("pass_not_joined", 1)
 			}
+			if ln.NoMatch {
+				st.add("nomatch_passed", 1)
+				if busyBefore {
+					st.add("nomatch_ended_run", 1)
+				}
+			}
+			busyBefore, idleBefore = false, true
 			pos++
 			a++
 			continue
@@ -397,6 +438,21 @@ func checkJoinStream(cs *Case, so *streamObs, st *oracleStats) *Viol {
 			return mk(shape, fmt.Sprintf("the run of %s ends before %s (a start, a non-continuing value or a missing field), but %d more events vanished; joined value %q", ln.ID, lines[e].ID, q-e, short(ev.view.Value, 300)), pos, a)
 		}
 		split := q < e
+		strictEnd := false
+		if split && (lines[q].NoMatch || (ln.NoMatch && q == pos+1)) {
+			// match conditions read strictly: the event that does not match ended the
+			// run (or, as a start line, never opened one). Where a time-out was possible
+			// the ordinary explanation is preferred (evidence only, both are accepted).
+			if byTimeout, _ := gapPermitsTimeout(cs, so.Raw, lines[q-1], lines[q]); !byTimeout {
+				split, strictEnd = false, true
+				// the run before a start line that does not match may have been flushed
+				// by a time-out: then the action was idle when the line arrived and there
+				// is only one reading
+				if !(ln.NoMatch && q == pos+1 && idleBefore) {
+					st.add("nomatch_strict_reading_seen", 1)
+				}
+			}
+		}
 		if split {
 			ok, maxGap := gapPermitsTimeout(cs, so.Raw, lines[q-1], lines[q])
 			if !ok {
@@ -458,6 +514,13 @@ func checkJoinStream(cs *Case, so *streamObs, st *oracleStats) *Viol {
 		if n > 1 {
 			st.add("runs_joined", 1)
 			st.add("lines_collapsed", int64(n-1))
+			if ev.rec.HeldFor > 0 {
+				// judged on an encoding taken after later events had passed the output
+				st.add("joined_read_late", 1)
+				if cs.SingleProc || cs.Procs == 1 {
+					st.add("joined_read_late_few_procs", 1)
+				}
+			}
 		} else {
 			st.add("runs_single", 1)
 		}
@@ -467,11 +530,38 @@ func checkJoinStream(cs *Case, so *streamObs, st *oracleStats) *Viol {
 				hasEmpty = true
 			}
 		}
+		nmIn := false
+		for _, l := range lines[pos+1 : q] {
+			if l.NoMatch {
+				st.add("nomatch_lines_joined", 1)
+				nmIn = true
+			}
+		}
+		if ln.NoMatch && q > pos+1 {
+			st.add("nomatch_start_opened_run", 1)
+		}
+		busyBefore = !split && !strictEnd
+		if busyBefore {
+			// still idle if a time-out was possible right behind the run, or if the
+			// "run" is a start line that does not match and met an idle action itself
+			wasIdle := idleBefore
+			idleBefore = false
+			if q < len(lines) {
+				idleBefore, _ = gapPermitsTimeout(cs, so.Raw, lines[q-1], lines[q])
+			}
+			if ln.NoMatch && q == pos+1 && wasIdle {
+				idleBefore = true
+			}
+		} else {
+			idleBefore = true
+		}
 		endBy := "other"
 		if q < len(lines) {
 			switch {
 			case split:
 				endBy = "timeout"
+			case strictEnd:
+				endBy = "nomatch"
 			case !lines[q].HasField:
 				endBy = "missing"
 			default:
@@ -481,7 +571,12 @@ func checkJoinStream(cs *Case, so *streamObs, st *oracleStats) *Viol {
 			}
 		}
 		st.add("run_end_by_"+endBy, 1)
-		st.fp(fmt.Sprintf("%s/%s/len=%s/end=%s/empty=%v/limited=%v/tpl=%d", kind, cs.Family, bucket(n), endBy, hasEmpty, limited, tpl))
+		fp := fmt.Sprintf("%s/%s/len=%s/end=%s/empty=%v/limited=%v/tpl=%d", kind, cs.Family, bucket(n), endBy, hasEmpty, limited, tpl)
+		if cs.Match != "" {
+			endNM := q < len(lines) && lines[q].NoMatch
+			fp += fmt.Sprintf("/match=%s/nomatch-inside=%v/nomatch-start=%v/ended-by-nomatch=%v", cs.Match, nmIn, ln.NoMatch, endNM)
+		}
+		st.fp(fp)
 		pos = q
 		a++
 	}
